@@ -2,7 +2,9 @@
     inversion of inverse_dispatcher as written is a two-sided inverse for ANY split point, given inverses of the
     leading block and of the Schur complement - so every size class above 4 reduces to smaller ones;
     (2) the LU-based inverse (get_lu_inverse over the Doolittle factors) satisfies A*X = I.
-    The closed forms for n <= 4, the triangular and pivoted variants are tied by correspondence only; the
+    (3) the closed forms for n <= 4 (generic element type), TRANSLATED FROM THE SOURCE on this run, are two-sided
+    inverses over every field whenever the determinant is non-zero.
+    The SIMD float/double closed forms, the triangular and pivoted variants are tied by correspondence only; the
     bound c*n*eps*cond is measured (PARTIAL). *)
 From Coq Require Import Arith ZArith List Lia.
 Import ListNotations.
@@ -39,4 +41,48 @@ Print Assumptions C10_lu_inverse.
 Example C10_runs :
   let A : mat ZS := fun i j => nth j (nth i [[1; 2; 0]; [1; 3; 1]; [0; 1; 2]]%Z nil) 0%Z in
   map (fun i => map (mmul 3 A (lu_inverse 3 A) i) [0; 1; 2]) [0; 1; 2] = [[1; 0; 0]; [0; 1; 0]; [0; 0; 1]]%Z.
+Proof. vm_compute. reflexivity. Qed.
+
+(** * n <= 4: the straight-line kernels of backend/inverse.h as translated by lib/cxx2v.py on this run
+    (Gen/GeneratedLinalg.v).  [mm n A B i j] = sum_k A(i,k) B(k,j), [delta i j x] = x on the diagonal, 0 off it. *)
+From FastorV Require Import Gen.GeneratedLinalg Proofs.ClosedForms.
+Theorem C10_closed_form_inverse :
+  forall (S : Scalar), FieldLaws S -> forall (A : nat -> S),
+    (gen_det2 S A <> s0 S -> forall i j, i < 2 -> j < 2 ->
+       mm S 2 A (gen_inverse2 S A) i j = delta S i j (s1 S) /\ mm S 2 (gen_inverse2 S A) A i j = delta S i j (s1 S)) /\
+    (gen_det3 S A <> s0 S -> forall i j, i < 3 -> j < 3 ->
+       mm S 3 A (gen_inverse3 S A) i j = delta S i j (s1 S) /\ mm S 3 (gen_inverse3 S A) A i j = delta S i j (s1 S)) /\
+    (gen_det4 S A <> s0 S -> forall i j, i < 4 -> j < 4 ->
+       mm S 4 A (gen_inverse4 S A) i j = delta S i j (s1 S) /\ mm S 4 (gen_inverse4 S A) A i j = delta S i j (s1 S)).
+Proof.
+  intros S F A. split; [|split]; intros Hd i j Hi Hj.
+  - exact (conj (inv2_right S F A i j Hd Hi Hj) (inv2_left S F A i j Hd Hi Hj)).
+  - exact (conj (inv3_right S F A i j Hd Hi Hj) (inv3_left S F A i j Hd Hi Hj)).
+  - exact (conj (inv4_right S F A i j Hd Hi Hj) (inv4_left S F A i j Hd Hi Hj)).
+Qed.
+Print Assumptions C10_closed_form_inverse.
+
+(** the translated adjugate and cofactor kernels (used by adj(), cof() and the lazy operators of C09):
+    A adj(A) = adj(A) A = det(A) I over every commutative ring; cof(A) = adj(A)^T *)
+Theorem C10_closed_form_adjugate :
+  forall (S : Scalar), RingLaws S -> forall (A : nat -> S) i j,
+    (i < 2 -> j < 2 -> mm S 2 A (gen_adjoint2 S A) i j = delta S i j (gen_det2 S A) /\ mm S 2 (gen_adjoint2 S A) A i j = delta S i j (gen_det2 S A)
+                       /\ gen_cofactor2 S A (i * 2 + j) = gen_adjoint2 S A (j * 2 + i)) /\
+    (i < 3 -> j < 3 -> mm S 3 A (gen_adjoint3 S A) i j = delta S i j (gen_det3 S A) /\ mm S 3 (gen_adjoint3 S A) A i j = delta S i j (gen_det3 S A)
+                       /\ gen_cofactor3 S A (i * 3 + j) = gen_adjoint3 S A (j * 3 + i)) /\
+    (i < 4 -> j < 4 -> mm S 4 A (gen_adjoint4 S A) i j = delta S i j (gen_det4 S A) /\ mm S 4 (gen_adjoint4 S A) A i j = delta S i j (gen_det4 S A)
+                       /\ gen_cofactor4 S A (i * 4 + j) = gen_adjoint4 S A (j * 4 + i)).
+Proof.
+  intros S L A i j. split; [|split]; intros Hi Hj.
+  - exact (conj (adj2_right S L A i j Hi Hj) (conj (adj2_left S L A i j Hi Hj) (cof2_adj S L A i j Hi Hj))).
+  - exact (conj (adj3_right S L A i j Hi Hj) (conj (adj3_left S L A i j Hi Hj) (cof3_adj S L A i j Hi Hj))).
+  - exact (conj (adj4_right S L A i j Hi Hj) (conj (adj4_left S L A i j Hi Hj) (cof4_adj S L A i j Hi Hj))).
+Qed.
+Print Assumptions C10_closed_form_adjugate.
+
+(** non-vacuity: the translated 3x3 kernel run on a rational matrix *)
+Example C10_closed_form_runs :
+  let A : nat -> QcS := fun p => nth p (map (fun z => Qcanon.Q2Qc (QArith_base.inject_Z z)) [2; 1; 0; 1; 3; 1; 0; 1; 2]%Z) (s0 QcS) in
+  map (fun i => map (fun j => Qcanon.this (mm QcS 3 A (gen_inverse3 QcS A) i j)) [0; 1; 2]) [0; 1; 2]
+  = map (map (fun z => Qcanon.this (Qcanon.Q2Qc (QArith_base.inject_Z z)))) [[1; 0; 0]; [0; 1; 0]; [0; 0; 1]]%Z.
 Proof. vm_compute. reflexivity. Qed.
